@@ -11,6 +11,31 @@ def build():
     return vlib.build("scn_future", ["sched/sched.cpp", "conc/scn_future.cpp"], SRCS, libs=["-ldl"])
 
 
+def build_fsig():
+    # the scenario includes src/Future.cpp itself (FastSignal is private to that file)
+    return vlib.build("scn_fsig", ["sched/sched.cpp", "conc/scn_fsig.cpp"], [x for x in SRCS if x != "src/Future.cpp"], libs=["-ldl"])
+
+
+def fsig_runs(ctx, n):
+    """Programs on ONE FastSignal (the pool's enqueued / dequeued signal): waiters, setters, and threads that reset and
+    set again - every reset is followed by a set of the same thread, so the event ends up set and every waiter must
+    return (manual-reset event: PrimsAbs of C11 judges the events; a waiter left blocked is a deadlock verdict)."""
+    rng = ctx.rng
+    runs = []
+    for i in range(n):
+        progs = [["wait"] * rng.choice([1, 1, 2]) for _ in range(rng.choice([1, 1, 2]))]
+        progs += [["set"] * rng.randint(1, 3) for _ in range(rng.choice([1, 2]))]
+        progs += [rng.choice([["reset", "set"], ["reset", "reset", "set"], ["reset", "set", "reset", "set"]]) for _ in range(rng.choice([1, 1, 2]))]
+        rng.shuffle(progs)
+        progs = progs[:6]
+        a = ["prim=fastsignal", "n=%d" % len(progs), "init=%d" % rng.choice([0, 1, 1])] + ["p%d=%s" % (j + 1, ",".join(p)) for j, p in enumerate(progs)]
+        a += ["--seed", str(ctx.seed * 9176 + i), "--spur", "0"]
+        if rng.random() < 0.4:
+            a += ["--pct", str(rng.choice([1, 2, 3])), "--pct-len", "40"]
+        runs.append(a)
+    return runs
+
+
 def key_of(args, res):
     feats = [a for a in args if a.split("=")[0] in ("mode", "abort", "poolcap", "poolmax") and "=" in a]
     return "Future:%s:%s" % (res, ",".join(sorted(feats)))
@@ -95,11 +120,36 @@ def run(ctx):
             a += ["--pct", str(rng.choice([1, 2, 3])), "--pct-len", str(rng.choice([60, 120, 250]))]
         runs.append(a)
     check_runs(ctx, binary, runs, "random")
+    # the pool's FastSignal on its own: small programs reach the interleavings of its two-step set / reset far more often
+    # than whole-pool runs do (the lost wake-up repaired in ee820be needs a reset split by a complete set)
+    from props import c11
+    fsig = build_fsig()
+    c11.check_runs(ctx, fsig, fsig_runs(ctx, 400 if ctx.quick else 8000), "fastsignal")
+    # ... and systematically: every schedule with at most 2 (thorough: 3) preemptions of small FastSignal programs, every
+    # schedule with at most 1 (thorough: 2) preemption of small pool configurations (vlib.preemption_bounded_schedules)
+    FS_PROGS = [(1, ["wait"], ["set"], ["reset", "set"]), (1, ["wait"], ["set", "set"], ["reset", "set"]), (0, ["wait"], ["set", "reset", "set"], ["set"]),
+                (1, ["wait", "wait"], ["set"], ["reset", "reset", "set"]), (1, ["wait"], ["wait"], ["set"], ["reset", "set"]),
+                (0, ["wait"], ["set"], ["reset", "set"], ["reset", "set"])]
+    runs = []
+    for init, *progs in FS_PROGS:
+        base = ["prim=fastsignal", "n=%d" % len(progs), "init=%d" % init] + ["p%d=%s" % (j + 1, ",".join(p)) for j, p in enumerate(progs)] + ["--seed", "1", "--spur", "0"]
+        runs += vlib.preemption_bounded_schedules(fsig, base, bound=2 if ctx.quick else 3, cap=1500 if ctx.quick else 12000)
+    ctx.notes["preemption_bounded_fastsignal_schedules"] = len(runs)
+    c11.check_runs(ctx, fsig, runs, "fastsignal_pb")
+    runs = []
+    for cfg in (["clients=2", "futs=2", "poolmax=1", "poolcap=1", "mode=0"], ["clients=2", "futs=1", "poolmax=2", "poolcap=1", "mode=1"],
+                ["clients=1", "futs=3", "poolmax=2", "poolcap=2", "mode=4"]):
+        base = cfg + ["workyield=0", "--seed", "1", "--spur", "0"]
+        runs += vlib.preemption_bounded_schedules(binary, base, bound=1 if ctx.quick else 2, cap=500 if ctx.quick else 6000)
+    ctx.notes["preemption_bounded_pool_schedules"] = len(runs)
+    check_runs(ctx, binary, runs, "pool_pb")
     ctx.assumptions.append("sequential consistency at the granularity of atomic accesses, hooked plain reads/writes and pthread calls")
     return vlib.finish(ctx, "model_checking",
                        "TLC model of the pool (FuturePoolImpl: all interleavings for 1-2 clients, capacities 1-2, liveness) -> schedules "
                        "replayed on the real Future/pool through the cooperative scheduler + random and PCT schedules over 1-3 clients x "
-                       "1-3 futures x pool sizes 1-3 x queue capacities 1-4 with restart / abort / idle-time variants; start/exec/done/"
+                       "1-3 futures x pool sizes 1-3 x queue capacities 1-4 with restart / abort / idle-time variants + the pool's FastSignal on its own "
+                       "(random programs and every schedule with <= 2-3 preemptions, judged as a manual-reset event by PrimsAbs) + every schedule "
+                       "with <= 1-2 preemptions of three small pool configurations; start/exec/done/"
                        "join events validated by TLC against FutureAbs; deadlock, non-termination, use of a destroyed primitive and "
                        "sanitizer reports are violations; distinct = distinct (configuration, schedule) pairs")
 
@@ -109,5 +159,9 @@ def replay(ctx, path):
     import shlex
     with open(path) as f:
         args = shlex.split(f.read().strip())
-    check_runs(ctx, binary, [args], "replay")
+    if "prim=fastsignal" in args:
+        from props import c11
+        c11.check_runs(ctx, build_fsig(), [args], "replay")
+    else:
+        check_runs(ctx, binary, [args], "replay")
     return vlib.finish(ctx, "model_checking", "replay")
